@@ -61,6 +61,12 @@ const ELEM_TYPES: &[&str] = &[
 
 const UNITS: &[&str] = &["wei", "gwei", "ether", "seconds", "minutes", "hours", "days", "weeks"];
 
+/// Method calls whose receiver is a call, a subscript, a parenthesised or a `new` expression.
+const RECEIVER_CALLS: &[&str] = &[
+    "IERC20 ( token ) . decimals ( )", "arr [ 0 ] . fee ( )", "f ( ) . g ( ) . h ( )", "( a ) . f ( )", "new C9 ( ) . f ( )", "a . b [ 0 ] . c ( )",
+    "abi . decode ( a , ( uint256 ) )", "f ( a ) [ 1 ] . g { value : 1 } ( )", "payable ( a ) . send ( 1 )", "type ( uint256 ) . max . add ( 1 )",
+];
+
 const ASSEMBLY: &[&str] = &[
     "assembly { }",
     "assembly { let r := add ( 1 , 2 ) sstore ( 0 , r ) }",
@@ -186,6 +192,10 @@ const PLANTS: &[(&str, u8, bool)] = &[
     ("a / b * c", 4, false),
     ("( a / b ) * c", 4, false),
     ("a / b * c * x", 4, false),
+    ("a / b * c % n * x", 4, false),
+    ("a / b * c + n * x", 5, false),
+    ("a * b % n / c * x", 4, false),
+    ("( a / b * c ) % n * x", 4, false),
     ("a * b / c", 4, false),
     ("a * ( b / c )", 4, false),
     ("x /= a * b", 14, false),
@@ -667,7 +677,14 @@ impl<'t, 'd> Gen<'t, 'd> {
         }
         self.n_state += 1;
         let underscore = self.t.chance(90);
-        let name = if underscore { format!("_s{}", self.n_state) } else { format!("s{}", self.n_state) };
+        // mostly lower case; sometimes UPPER_CASE (the naming convention for constants and immutables) or mixed
+        let stem = match self.t.below(8) {
+            0 => format!("S{}", self.n_state),
+            1 => format!("FEE_{}", self.n_state),
+            2 => format!("sV{}", self.n_state),
+            _ => format!("s{}", self.n_state),
+        };
+        let name = if underscore { format!("_{stem}") } else { stem };
         self.w(&name);
         if constant || self.t.chance(90) {
             self.w("=");
@@ -933,6 +950,10 @@ impl<'t, 'd> Gen<'t, 'd> {
                             self.w(&p);
                             self.wp(&[". toString ( )", ". toShortString ( )", ". encode ( a )", ". abi ( )", ". bytes ( )", ". decode ( a )"]);
                         }
+                        5 => {
+                            // a method call whose receiver is not a plain identifier path
+                            self.wp(RECEIVER_CALLS);
+                        }
                         _ => self.expr(3, 14),
                     }
                     self.w(";");
@@ -944,6 +965,20 @@ impl<'t, 'd> Gen<'t, 'd> {
                 self.stmt(2);
             }
             self.nl();
+            self.w("}");
+        } else if !self.state_vars.is_empty() && self.t.chance(70) {
+            // an ordinary constructor body that starts by initialising a state variable from a call chain
+            self.w("{");
+            let v = self.state_vars[self.t.below(self.state_vars.len())].clone();
+            self.w(&v);
+            self.w("=");
+            self.wp(RECEIVER_CALLS);
+            self.w(";");
+            let n = self.t.below(3);
+            for _ in 0..n {
+                self.nl();
+                self.stmt(2);
+            }
             self.w("}");
         } else {
             self.block(1);
@@ -1140,6 +1175,19 @@ impl<'t, 'd> Gen<'t, 'd> {
                     _ => self.w(&format!("( ( ( {a} ) ) , ( , {b} ) )")),
                 }
             }
+            9 if self.t.chance(128) => {
+                // several subscripts, other names only read as keys: `m[keys[i]][id] = ..` writes m, not keys
+                // (the keys are parameters of the function where there are any)
+                let a = self.name();
+                let b = if self.params.is_empty() { self.name() } else { self.params[self.t.below(self.params.len())].clone() };
+                let c = if self.params.is_empty() { self.name() } else { self.params[self.t.below(self.params.len())].clone() };
+                match self.t.below(4) {
+                    0 => self.w(&format!("{a} [ {b} [ i ] ] [ {c} ]")),
+                    1 => self.w(&format!("{a} [ {b} ] [ {c} [ 0 ] ]")),
+                    2 => self.w(&format!("{a} [ {b} . length ] [ 0 ] [ {c} ]")),
+                    _ => self.w(&format!("{a} [ uint256 ( {b} [ 0 ] ) ] . m0 [ {c} ]")),
+                }
+            }
             0..=4 => {
                 let n = self.name();
                 self.w(&n);
@@ -1212,6 +1260,16 @@ impl<'t, 'd> Gen<'t, 'd> {
                 let n = self.t.range(0, 3);
                 for _ in 0..n {
                     self.stmt(depth + 1);
+                }
+                if self.t.chance(40) {
+                    // a nested unchecked block (the parser accepts it) that closes before the outer one does
+                    let a = self.name();
+                    let b = self.name();
+                    let wrapped = self.t.below(3);
+                    self.w(["unchecked {", "if ( a ) { unchecked {", "{ unchecked {"][wrapped]);
+                    self.w(&format!("-- {a} ;"));
+                    self.w(if wrapped == 0 { "}" } else { "} }" });
+                    self.w(&format!("++ {b} ; {a} ++ ;"));
                 }
                 self.w("}");
             }
